@@ -43,6 +43,37 @@ def has_same_named(u):
     return len(names) != len(set(names))
 
 
+def direct_named(t):
+    """The named type a usage refers to with a bare $ref (pointers vanish), else None."""
+    while t[0] == "ptr":
+        t = t[1]
+    return t if t[0] == "named" else None
+
+
+def touching(validate):
+    for rule in (validate or "").split(","):
+        name, _, val = rule.partition("=")
+        if name == "enum" or (name == "oneof" and val.split()):
+            return True
+    return False
+
+
+def has_touching_ref_tag(u):
+    """A oneof/enum rule on a field or parameter whose schema is a bare $ref."""
+    reach = T.py_reach(u)
+    for d in u["decls"]:
+        if d["kind"] == "struct" and (d["pkg"], d["name"]) in reach:
+            for f in d["fields"]:
+                if not f["embedded"] and f["name"][:1].isupper() and f["json"] != "-" \
+                        and direct_named(f["type"]) is not None and touching(f["validate"]):
+                    return True
+    for r in T.all_routes(u):
+        for p in r["params"]:
+            if direct_named(p["type"]) is not None and touching(p["validate"]):
+                return True
+    return False
+
+
 def returns_plain_error(u):
     return any(r["err"] is None for r in T.all_routes(u))
 
@@ -86,13 +117,6 @@ def neutralise(spec, version, u):
 
 
 # ------------------------------------------------------------------ metamorphic variants
-
-def direct_named(t):
-    """The named type a usage refers to with a bare $ref (pointers vanish), else None."""
-    while t[0] == "ptr":
-        t = t[1]
-    return t if t[0] == "named" else None
-
 
 def variants_of(rng, u):
     """[(kind, variant universe, names whose component may legitimately change, F9 target or None)]"""
@@ -331,6 +355,9 @@ def main():
         j = neutral_of.get((k, v))
         if j is not None and j not in ev["c07_fail"] and j not in ev["unprojectable"]:
             return set(meta[j][3])
+        rest = ev["c07_fail"].get(j if j is not None else raw_id, [])
+        if v == "3.0.0" and has_touching_ref_tag(u) and set(rest) <= {1}:
+            return set(meta[j][3] if j is not None else set()) | {CLS_ONEOF30}
         return None
 
     def report_known_or_violation(classes, what, replay):
